@@ -344,11 +344,11 @@ fn count_uri(list: &[PublishedFile], u: &uri::Rsync) -> usize {
 /// the delta applied: an update REPLACES the entry for its URI (exactly one
 /// entry, new content), a withdraw removes it, a publish adds one; other
 /// entries are untouched; the exchange is recorded as a success.
-// vk: tier=thorough; timeout=2400; unwindset=memcmp.0:24; bound=2 existing files (concrete URIs rsync://h/m/a and /b), one delta element chosen symbolically among update(a) / withdraw(a) / publish(c)
+// vk: tier=thorough; timeout=2400; unwindset=memcmp.0:24,_RINvXs2J_NtNtCs8xvirJzNMvV_4core5slice4iterINtB7_4IterhENtNtNtNtBb_4iter6traits8iterator8Iterator3allNCINvNtCs5flY6c0xCET_4rpki3uri15check_uri_asciiRNtNtCslvDcKK9bh8L_5bytes5bytes5BytesE0EB1I_.0:24,_RNvMNtNtCs8xvirJzNMvV_4core5slice5asciiSh27eq_ignore_ascii_case_simpleCs9e5IdDHK8rB_5krill.0:24,_RINvNvMNtNtCs8xvirJzNMvV_4core5slice5asciiSh27eq_ignore_ascii_case_chunks21eq_ignore_ascii_innerKj10_ECs9e5IdDHK8rB_5krill.0:24,_RINvMNtNtCs8xvirJzNMvV_4core5slice5asciiSh27eq_ignore_ascii_case_chunksKj10_ECs1TccL4rMDcR_6chrono.0:24; bound=2 existing files (concrete URIs rsync://h/m/a and /b), one delta element chosen symbolically among update(a) / withdraw(a) / publish(c)
 #[kani::proof]
-#[kani::unwind(22)]
+#[kani::unwind(5)]
 #[kani::stub(rpki::repository::x509::Time::now, stub_now)]
-fn c19c_repo_published_follows_delta() {
+fn x19c_repo_published_follows_delta() {
     let now = sym_now().timestamp();
     let (ua, ub, uc) = (rsync("rsync://h/m/a"), rsync("rsync://h/m/b"), rsync("rsync://h/m/c"));
     let mut st = RepoStatus::default();
